@@ -161,11 +161,15 @@ namespace ratio
     inline smt::lit get_ni() noexcept { return ni; }
     inline void set_ni(const smt::lit &v) noexcept
     {
-      tmp_ni = ni;
+      saved_nis.push_back(ni); // set_ni/restore_ni pairs can be nested (e.g. a fact created by a rule gets its temporal rule applied under its own sigma)..
       ni = v;
     }
 
-    inline void restore_ni() noexcept { ni = tmp_ni; }
+    inline void restore_ni() noexcept
+    {
+      ni = saved_nis.back();
+      saved_nis.pop_back();
+    }
 
   public:
     CORE_EXPORT smt::json to_json() const noexcept override;
@@ -195,7 +199,7 @@ namespace ratio
     std::map<std::string, type *> types;                  // the types, indexed by their name, defined within this core..
     std::map<std::string, predicate *> predicates;        // the predicates, indexed by their name, defined within this core..
 
-    smt::lit tmp_ni;             // the temporary controlling literal, used for restoring the controlling literal..
+    std::vector<smt::lit> saved_nis; // the controlling literals to restore, innermost last..
     smt::lit ni = smt::TRUE_lit; // the controlling literal..
 
 #ifdef ORATIO_VERIF
